@@ -41,6 +41,7 @@ CONSTANTS Alphabet,      \* the tokens texts are made of
 Alpha12 == {"x", "a", " ", "\n", "=", ",", "{", "}", "[", "]", ";", "\\"}
 Alpha14 == Alpha12 \cup {"#", "t"}
 Alpha8  == {"x", " ", ",", "{", "}", ";", "\\", "\n"}        \* for the inside of tuples
+Alpha9  == {"x", "a", " ", "\n", "=", "[", "]", ";", "\\"}   \* for section headers and property names
 ValAlpha == {"a", " ", "=", "["}
 ValAlpha2 == {"a", "="}
 PrefixNone  == <<>>                                  \* cfg files cannot write tuples: Prefix <- PrefixNone
